@@ -403,11 +403,11 @@ def _build():
 
     @datasource(HostContext)
     def c07_names(broker):
-        return ["in_file"]
+        return ["in_file", "in_file2"]
 
     @datasource(HostContext)
     def c07_paths(broker):
-        return [os.path.join(root, "in_cmd")]
+        return [os.path.join(root, "in_cmd"), os.path.join(root, "in_cmd2")]
 
     class C07Specs(SpecSet):
         s = RegistryPoint(filterable=True)
@@ -437,6 +437,7 @@ def _build():
 
     class C07Archive(C07Specs):
         s = simple_file("/in_file", context=HostArchiveContext)
+        nf_glob_file = glob_file("/in_f*", context=HostArchiveContext)
 
     @parser(C07Specs.s)
     class C07P(Parser):
@@ -502,6 +503,7 @@ def _build():
     for f in NF_FACTORIES:
         fx.comp["NF_" + f] = getattr(C07Specs, "nf_" + f)
         fx.comp["INF_" + f] = getattr(C07Host, "nf_" + f)
+    fx.comp["ANF_glob_file"] = C07Archive.nf_glob_file
     shape_classes = []
     for sh in sorted(SHAPES):
         shape_classes += _build_shape(fx, sh, SHAPES[sh])
@@ -537,7 +539,11 @@ def _build():
     fx.HostArchiveContext = HostArchiveContext
     fx.triples = {"archive": {"point": fx.comp["S"], "impl": fx.comp["I2"], "parser": fx.comp["P"]},
                   "host-file": {"point": fx.comp["S"], "impl": fx.comp["I1"], "parser": fx.comp["P"]},
-                  "host-cmd": {"point": fx.comp["CMD"], "impl": fx.comp["ICMD"], "parser": fx.comp["PCMD"]}}
+                  "host-cmd": {"point": fx.comp["CMD"], "impl": fx.comp["ICMD"], "parser": fx.comp["PCMD"]},
+                  "archive-glob": {"point": fx.comp["NF_glob_file"], "impl": fx.comp["ANF_glob_file"],
+                                   "parser": fx.comp["NF_glob_file"]}}
+    for pth, fac in HOST_MULTI.items():
+        fx.triples[pth] = {"point": fx.comp["NF_" + fac], "impl": fx.comp["INF_" + fac], "parser": fx.comp["NF_" + fac]}
     return fx
 
 
@@ -1272,9 +1278,50 @@ def with_via(fs, si):
     return [[f, b, VIAS[(si + k) % 3]] for k, (f, b) in enumerate(fs)]
 
 
+# A filter descriptor is a list, in REGISTRATION ORDER, of
+#   [string, budget|null, via]                                           one add_filter(target(via), string[, budget])
+#   {"set": [strings], "perm": [hashes], "budget": b|null, "via": via}   one add_filter(target, set(strings)[, b]) where
+#        the strings are str objects with forced hashes, so that the set's iteration order is the descriptor's choice
+def _flat(flts):
+    out = []
+    for e in flts:
+        if isinstance(e, dict):
+            out += [(f, e.get("budget"), e["via"]) for f in e["set"]]
+        else:
+            out.append((e[0], e[1], e[2]))
+    return out
+
+
+def _effective(flts):
+    """{string: budget|None} the content clauses are judged with.  One string registered several times: on one
+    component the largest budget counts (as in Part A); across components (implementation vs point) the statement is
+    silent, the SMALLEST is taken - a drop is accepted as soon as any candidate budget is used up."""
+    per = {}
+    for f, b, via in _flat(flts):
+        place = "impl" if via == "impl" else "point"
+        b = DEFAULT_BUDGET if b is None else b
+        per.setdefault(f, {})
+        per[f][place] = max(per[f].get(place, 0), b)
+    out = {}
+    for f, places in per.items():
+        m = min(places.values())
+        out[f] = None if m >= DEFAULT_BUDGET else m
+    return out
+
+
 def _register(fx, triple, flts):
+    from mc.forcedhash import HStr
     _reset_tables(fx)
-    for f, b, via in flts:
+    for e in flts:
+        if isinstance(e, dict):
+            tgt = fx.triples[triple][e["via"]]
+            pats = set(HStr(f, h) for f, h in zip(e["set"], e["perm"]))
+            if e.get("budget") is None:
+                fx.filters.add_filter(tgt, pats)
+            else:
+                fx.filters.add_filter(tgt, pats, e["budget"])
+            continue
+        f, b, via = e
         tgt = fx.triples[triple][via]
         if b is None:
             fx.filters.add_filter(tgt, f)
@@ -1293,11 +1340,19 @@ def _new_cleaner():
     return c
 
 
-def _obs_archive(fx, lines):
+def _second_file(lines):
+    """Content of the second file of a multi-file spec: a fixed function of the first one, always with matches."""
+    return list(reversed(lines)) + ["xa", "b"]
+
+
+def _archive_provider(fx, lines):
     from insights.core.spec_factory import TextFileProvider
     _write_input(fx, "in_file", lines)
-    p = TextFileProvider("in_file", root=fx.root, ds=fx.comp["I2"], ctx=fx.HostArchiveContext(root=fx.root))
-    return p.content
+    return TextFileProvider("in_file", root=fx.root, ds=fx.comp["I2"], ctx=fx.HostArchiveContext(root=fx.root))
+
+
+def _obs_archive(fx, lines):
+    return _archive_provider(fx, lines).content
 
 
 def _obs_cleaner(fx, cleaner, lines):
@@ -1316,93 +1371,172 @@ def _host_broker(fx):
     return b
 
 
-def _obs_host(fx, path, lines):
-    """Host collection of one spec through the real datasource and the real grep.  Two observation points:
-    the provider's content (after the grep pre-filter) and the file produced by write() with a cleaner."""
+def _short(fx, ex):
+    return "not collected: " + repr(ex).replace(fx.root, "<root>")[:160]
+
+
+def _provider_stages(fx, prov, lines, tag="", stream=False, again=False):
+    """Observation points of one host provider: [stream() before anything is loaded,] content (after the grep
+    pre-filter), the file produced by write() with a cleaner [, a second write() of the same provider]."""
     from insights.core.exceptions import ContentException, CalledProcessError
-    point = fx.triples[path]["point"]
-    _write_input(fx, "in_file" if path == "host-file" else "in_cmd", lines)
-    b = _host_broker(fx)
-    fx.dr.run(fx.dr.get_dependency_graph(point), b)
-    if point not in b:
-        note = "absent: " + "; ".join(sorted(set(repr(e)[:80] for v in b.exceptions.values() for e in v)))
-        return [("content", [], note.replace(fx.root, "<root>"))]
     stages = []
-    prov = b[point]
+    if stream:
+        try:
+            stages.append(("stream" + tag, lines, list(prov.stream()), None))
+        except (ContentException, CalledProcessError) as ex:
+            stages.append(("stream" + tag, lines, [], _short(fx, ex)))
     try:
-        stages.append(("content", list(prov.content), None))
+        stages.append(("content" + tag, lines, list(prov.content), None))
     except (ContentException, CalledProcessError) as ex:
-        stages.append(("content", [], "not collected: " + repr(ex).replace(fx.root, "<root>")[:160]))
-    dst = os.path.join(fx.root, "out", "spec")
-    try:
-        prov.write(dst)
-        with open(dst) as fh:
-            data = fh.read()
-        stages.append(("written", data.split("\n") if data else [], None))
-    except (ContentException, CalledProcessError) as ex:
-        stages.append(("written", [], "not collected: " + repr(ex).replace(fx.root, "<root>")[:160]))
+        stages.append(("content" + tag, lines, [], _short(fx, ex)))
+    for k, name in enumerate(["written", "written-again"] if again else ["written"]):
+        dst = os.path.join(fx.root, "out", "spec%d" % k)
+        try:
+            prov.write(dst)
+            with open(dst) as fh:
+                data = fh.read()
+            stages.append((name + tag, lines, data.split("\n") if data else [], None))
+        except (ContentException, CalledProcessError) as ex:
+            stages.append((name + tag, lines, [], _short(fx, ex)))
+    return stages
+
+
+HOST_MULTI = {"host-glob": "glob_file", "host-foreach-collect": "foreach_collect", "host-foreach-execute": "foreach_execute"}
+
+
+def _obs_host(fx, path, lines, flts):
+    """Host collection of one spec through the real datasource and the real grep.  For the single-provider paths the
+    provider is observed through stream() (short contents), content, write(), a second write(); when budgets are in
+    play the whole collection is done a second time in the same process.  For the multi-file factories every
+    provider of the list is judged against its own file."""
+    multi = path in HOST_MULTI
+    point = fx.comp["NF_" + HOST_MULTI[path]] if multi else fx.triples[path]["point"]
+    second = _second_file(lines)
+    if multi:
+        _write_input(fx, "in_file", lines)
+        _write_input(fx, "in_cmd", lines)
+        _write_input(fx, "in_file2", second)
+        _write_input(fx, "in_cmd2", second)
+    else:
+        _write_input(fx, "in_file" if path == "host-file" else "in_cmd", lines)
+    stages = []
+    budgets = any(b is not None for _, b, _ in _flat(flts))
+    for rnd in ((0, 1) if budgets and not multi else (0,)):
+        tag = "#2" if rnd else ""
+        b = _host_broker(fx)
+        fx.dr.run(fx.dr.get_dependency_graph(point), b)
+        if point not in b:
+            note = "absent: " + "; ".join(sorted(set(repr(e)[:80] for v in b.exceptions.values() for e in v)))
+            stages.append(("content" + tag, lines, [], note.replace(fx.root, "<root>")))
+            if multi:
+                stages.append(("content[1]", second, [], note.replace(fx.root, "<root>")))
+            continue
+        if not multi:
+            stages += _provider_stages(fx, b[point], lines, tag, stream=(rnd == 0 and len(lines) != 2), again=(rnd == 0))
+            continue
+        provs = b[point]
+        seen = set()
+        for prov in (provs if isinstance(provs, list) else [provs]):
+            which = 1 if (prov.relative_path or "").endswith("2") or (prov.cmd or "").endswith("2") else 0
+            seen.add(which)
+            stages += _provider_stages(fx, prov, second if which else lines, "[%d]" % which)
+        for which in (0, 1):
+            if which not in seen:
+                stages.append(("content[%d]" % which, second if which else lines, [], "no provider for this file"))
+    return stages
+
+
+def _obs_archive_glob(fx, lines):
+    second = _second_file(lines)
+    _write_input(fx, "in_file", lines)
+    _write_input(fx, "in_file2", second)
+    b = fx.dr.Broker()
+    b[fx.HostArchiveContext] = fx.HostArchiveContext(root=fx.root)
+    provs = fx.comp["ANF_glob_file"](b)
+    stages, seen = [], set()
+    for prov in provs:
+        which = 1 if prov.relative_path.endswith("2") else 0
+        seen.add(which)
+        stages.append(("content[%d]" % which, second if which else lines, prov.content, None))
+    for which in (0, 1):
+        if which not in seen:
+            stages.append(("content[%d]" % which, second if which else lines, [], "no provider for this file"))
     return stages
 
 
 def _features(path, flts, stage, out):
+    flat = _flat(flts)
     grep_path = path in ("host-file", "host-cmd")
     feats = {"path": "host-grep" if grep_path else path,
-             "filter_starts_with_dash": max(f[0] for f in flts).startswith("-"),
+             "filter_starts_with_dash": max(f for f, _, _ in flat).startswith("-"),
              "output_empty": out == []}
+    if grep_path or path in HOST_MULTI or stage.startswith("stream"):
+        feats["stage"] = stage
     if grep_path:
         feats["provider"] = "file" if path == "host-file" else "command"
-        feats["stage"] = stage
+    if any("\n" in f for f, _, _ in flat):
+        feats["filter_contains_newline"] = True
     return feats
 
 
-def _observe(fx, path, lines, cleaner):
-    """-> [(stage, output lines, note)]"""
+def _observe(fx, path, lines, cleaner, flts):
+    """-> [(stage, the input lines this stage is judged against, output lines, note)]"""
     if path == "archive-load":
-        return [("output", _obs_archive(fx, lines), None)]
+        p = _archive_provider(fx, lines)
+        return [("output", lines, p.content, None), ("stream-after-load", lines, list(p.stream()), None)]
     if path == "cleaner":
-        return [("output", _obs_cleaner(fx, cleaner, lines), None)]
+        return [("output", lines, _obs_cleaner(fx, cleaner, lines), None)]
     if path == "apply":
-        return [("output", _obs_apply(fx, lines), None)]
+        return [("output", lines, _obs_apply(fx, lines), None)]
     if path == "archive-load-twice":        # same registration, the file is loaded a second time
         _obs_archive(fx, lines)
-        return [("second", _obs_archive(fx, lines), None)]
+        return [("second", lines, _obs_archive(fx, lines), None)]
     if path == "cleaner-twice":
         _obs_cleaner(fx, cleaner, lines)
-        return [("second", _obs_cleaner(fx, cleaner, lines), None)]
-    return _obs_host(fx, path, lines)
+        return [("second", lines, _obs_cleaner(fx, cleaner, lines), None)]
+    if path == "archive-stream":            # stream() of a provider whose content was never loaded
+        return [("output", lines, list(_archive_provider(fx, lines).stream()), None)]
+    if path == "archive-glob":
+        return _obs_archive_glob(fx, lines)
+    return _obs_host(fx, path, lines, flts)
 
 
 PATH_TRIPLE = {"archive-load": "archive", "cleaner": "archive", "apply": "archive", "archive-load-twice": "archive",
-               "cleaner-twice": "archive", "host-file": "host-file", "host-cmd": "host-cmd"}
-BUDGETED = {"archive-load": True, "cleaner": True, "apply": False, "archive-load-twice": True, "cleaner-twice": True,
-            "host-file": True, "host-cmd": True}
+               "cleaner-twice": "archive", "archive-stream": "archive", "archive-glob": "archive-glob",
+               "host-file": "host-file", "host-cmd": "host-cmd", "host-glob": "host-glob",
+               "host-foreach-collect": "host-foreach-collect", "host-foreach-execute": "host-foreach-execute"}
+UNBUDGETED = ("apply",)
 IN_PROCESS = ("archive-load", "cleaner", "apply")
 TWICE = ("archive-load-twice", "cleaner-twice")     # contents of <= TWICE_MAX_LINES lines
 TWICE_MAX_LINES = 3
+SHORT = ("archive-stream",)                          # contents of <= SHORT_MAX_LINES lines
+SHORT_MAX_LINES = 2
 
 
 def _judge_path(fx, path, lines, flts, cleaner):
     """One (path, content) under the currently registered filter set -> (final output, violation-or-None)."""
-    flt = dict((f, b) for f, b, _ in flts)
+    flt = _effective(flts)
     try:
-        stages = _observe(fx, path, lines, cleaner)
+        stages = _observe(fx, path, lines, cleaner, flts)
     except Exception as ex:
         return None, (CL_EXC, "no exception", "%s: %s" % (type(ex).__name__, str(ex)[:200]),
                       _features(path, flts, "raised", None))
-    for stage, out, note in stages:
-        v = judge(lines, out, flt, BUDGETED[path])
+    for stage, src, out, note in stages:
+        v = judge(src, out, flt, path not in UNBUDGETED)
         if v:
             obs = v[2] if isinstance(v[2], dict) else {"output": v[2]}
             if note:
                 obs = dict(obs, note=note)
             if stage not in ("output", "second"):
                 obs = dict(obs, stage=stage)
+            if src is not lines:
+                obs = dict(obs, judged_against=src)
             return out, (v[0], v[1], obs, _features(path, flts, stage, out))
-    return stages[-1][1], None
+    return stages[-1][2], None
 
 
 def check_content(case):
-    """case = {"part":"content","path":..,"lines":[..],"filters":[[string,budget|null,via],..]}"""
+    """case = {"part":"content","path":..,"lines":[..],"filters":[filter descriptor]}"""
     fx = _fx()
     _mkroot(fx)
     try:
@@ -1418,22 +1552,64 @@ def _contents(max_lines):
     return enumx.strings(SIGMA, max_lines)
 
 
+def extra_filter_lists(tier):
+    """Filter descriptors beyond plain sets: registration ORDER, every combination of registration places, one string
+    registered twice with different budgets, three filters with mixed budgets, a filter that is a superstring of two
+    others ("ab"), set-typed arguments under every iteration order.  Judged on contents of <= 3 lines."""
+    out = []
+    pairs = [("a", "-a"), ("a", "[a]"), ("a", "b"), ("a", "ab"), ("b", "ab")]
+    for x, y in pairs:
+        for f, g in ((x, y), (y, x)):
+            for v1 in VIAS:
+                for v2 in VIAS:
+                    out.append([[f, 1, v1], [g, 2, v2]])
+            for bs in ((2, 1), (1, 1)):
+                for v1, v2 in (("point", "point"), ("impl", "point"), ("point", "impl")):
+                    out.append([[f, bs[0], v1], [g, bs[1], v2]])
+    import itertools as it
+    for tri, bud in ((("a", "b", "-a"), (1, 2, None)), (("a", "-a", "[a]"), (1, 2, None)), (("a", "b", "ab"), (2, 1, 1)),
+                     (("a", "-a", "[a]"), (1, 1, 1))):
+        for k, perm in enumerate(it.permutations(range(3))):
+            out.append([[tri[i], bud[i], VIAS[(i + k) % 3]] for i in perm])
+    # one string twice
+    out += [[["a", 1, "impl"], ["a", 2, "point"]], [["a", 2, "point"], ["a", 1, "impl"]], [["a", 2, "impl"], ["a", 1, "point"]],
+            [["a", 1, "point"], ["a", 2, "parser"]], [["a", 2, "parser"], ["a", 1, "point"], ["b", 1, "impl"]],
+            [["a", 1, "impl"], ["b", 1, "point"], ["a", None, "point"]]]
+    # set-typed arguments, every iteration order of the set (forced hashes)
+    for strs in (("a", "-a"), ("a", "b"), ("a", "[a]"), ("a", "-a", "[a]"), ("a", "b", "ab")):
+        for perm in it.permutations(range(len(strs))):
+            for bud in ((1, 2) if tier == "quick" else (1, 2, None)):
+                out.append([{"set": list(strs), "perm": list(perm), "budget": bud,
+                             "via": VIAS[(perm[0] + (bud or 0)) % 3]}])
+    return out
+
+
 def explore_content(unit, tier, res):
     fx = _fx()
-    si = unit["set"]
-    flts = with_via(filter_sets(tier)[si], si)
-    L = BOUNDS[tier]["content_max_lines"]
+    if "xset" in unit:
+        flts = extra_filter_lists(tier)[unit["xset"]]
+        L = 3
+        paths_for = lambda n: ("archive-load", "cleaner")
+    else:
+        si = unit["set"]
+        flts = with_via(filter_sets(tier)[si], si)
+        L = BOUNDS[tier]["content_max_lines"]
+        paths_for = lambda n: (IN_PROCESS + (TWICE if n <= TWICE_MAX_LINES else ())
+                               + (SHORT + ("archive-glob",) if n <= SHORT_MAX_LINES else ()))
     cleaner = _new_cleaner()
     if cleaner.clean_content(list(SIGMA)) != SIGMA:
         raise RuntimeError("the cleaner alters the line alphabet without an allow-list; alphabet is not neutral")
     _mkroot(fx)
     try:
-        _register(fx, "archive", flts)
-        snap = _snapshot_tables(fx)
+        snaps = {}
         for t in enumx.shard(_contents(L), unit["shard"], unit["of"]):
             lines = list(t)
-            for path in (IN_PROCESS + TWICE if len(lines) <= TWICE_MAX_LINES else IN_PROCESS):
-                _restore_tables(fx, snap)
+            for path in paths_for(len(lines)):
+                tr = PATH_TRIPLE[path]
+                if tr not in snaps:
+                    _register(fx, tr, flts)
+                    snaps[tr] = _snapshot_tables(fx)
+                _restore_tables(fx, snaps[tr])
                 out, v = _judge_path(fx, path, lines, flts, cleaner)
                 res.evals += 1
                 if out is not None:
@@ -1442,7 +1618,7 @@ def explore_content(unit, tier, res):
                     res.outcomes.add("%s:%d:%d" % (path, len(lines), len(out)))
                 if v:
                     res.violation(v[0], {"part": "content", "path": path, "lines": lines, "filters": flts}, v[1], v[2], v[3])
-        res.samples.append({"part": "content", "path": "archive-load", "lines": ["xa", "c", "a", "ab"], "filters": flts})
+        res.samples.append({"part": "content", "path": "archive-load", "lines": ["xa", "c", "a"], "filters": flts})
     finally:
         _reset_tables(fx)
         _rmroot(fx)
@@ -1453,28 +1629,129 @@ def host_contents(tier):
     return [list(t) for t in _contents(L)] + [list(SIGMA), list(SIGMA) + list(reversed(SIGMA))]
 
 
+HOST_MULTI_SETS = [[["a", 1, "point"]], [["a", 1, "impl"], ["b", 2, "point"], ["-a", None, "point"]],
+                   [["-a", 2, "point"], ["[a]", 1, "impl"]]]
+
+
+def _explore_host_cases(fx, res, paths, flts, contents):
+    for path in paths:
+        _register(fx, PATH_TRIPLE[path], flts)
+        snap = _snapshot_tables(fx)
+        for lines in contents:
+            _restore_tables(fx, snap)
+            out, v = _judge_path(fx, path, lines, flts, None)
+            res.evals += 1
+            res.stat("real_grep_cases")
+            if out is not None:
+                if 0 < len(out) < len(lines):
+                    res.nontrivial += 1
+                res.outcomes.add("%s:%d:%d" % (path, min(len(lines), 6), min(len(out), 6)))
+            if v:
+                res.violation(v[0], {"part": "content", "path": path, "lines": lines, "filters": flts}, v[1], v[2], v[3])
+
+
 def explore_host(unit, tier, res):
     fx = _fx()
-    si = unit["set"]
-    flts = with_via(host_filter_sets(tier)[si], si)
     _mkroot(fx)
     try:
-        for path in ("host-file", "host-cmd"):
-            _register(fx, path, flts)
-            snap = _snapshot_tables(fx)
-            for lines in enumx.shard(host_contents(tier), unit["shard"], unit["of"]):
-                _restore_tables(fx, snap)
-                out, v = _judge_path(fx, path, lines, flts, None)
-                res.evals += 1
-                res.stat("real_grep_cases")
-                if out is not None:
-                    if 0 < len(out) < len(lines):
-                        res.nontrivial += 1
-                    res.outcomes.add("%s:%d:%d" % (path, min(len(lines), 6), min(len(out), 6)))
-                if v:
-                    res.violation(v[0], {"part": "content", "path": path, "lines": lines, "filters": flts}, v[1], v[2], v[3])
-        res.samples.append({"part": "content", "path": "host-cmd", "lines": ["-a", "c", "xa"], "filters": flts})
+        if "multi" in unit:
+            flts = HOST_MULTI_SETS[unit["set"]]
+            L = 2 if tier == "quick" else 3
+            contents = list(enumx.shard((list(t) for t in _contents(L)), unit["shard"], unit["of"]))
+            _explore_host_cases(fx, res, [unit["multi"]], flts, contents)
+            res.samples.append({"part": "content", "path": unit["multi"], "lines": ["a", "c"], "filters": flts})
+        else:
+            si = unit["set"]
+            flts = with_via(host_filter_sets(tier)[si], si)
+            contents = list(enumx.shard(host_contents(tier), unit["shard"], unit["of"]))
+            _explore_host_cases(fx, res, ["host-file", "host-cmd"], flts, contents)
+            res.samples.append({"part": "content", "path": "host-cmd", "lines": ["-a", "c", "xa"], "filters": flts})
     finally:
+        _reset_tables(fx)
+        _rmroot(fx)
+
+
+# glue: filter strings with characters that mean something to a shell, to grep, to %-formatting or to the
+# newline-joined pattern list; judged on their own small line alphabet through all paths
+GLUE_FILTERS = ["\\", "a b", "*", "%s", "\"", "'", "^a", "a$", "(a", "a\nb"]
+GLUE_LINES = ["\\", "a b", "*", "%s", "'\"", "a\\b", "^a", "a$", "(a", "a", "b", "ab"]
+
+
+def glue_sets():
+    sets = [[[f, None, VIAS[k % 3]]] for k, f in enumerate(GLUE_FILTERS)]
+    sets.append([[f, None, VIAS[k % 3]] for k, f in enumerate(GLUE_FILTERS) if "\n" not in f])
+    sets.append([["\\", 1, "point"], ["*", 1, "impl"]])
+    return sets
+
+
+def explore_glue(res):
+    fx = _fx()
+    cleaner = _new_cleaner()
+    if cleaner.clean_content(list(GLUE_LINES)) != GLUE_LINES:
+        raise RuntimeError("the cleaner alters the glue line alphabet without an allow-list")
+    contents = [[l] for l in GLUE_LINES] + [list(GLUE_LINES), []]
+    _mkroot(fx)
+    try:
+        for flts in glue_sets():
+            for path in IN_PROCESS + ("host-file", "host-cmd"):
+                _register(fx, PATH_TRIPLE[path], flts)
+                snap = _snapshot_tables(fx)
+                for lines in contents:
+                    _restore_tables(fx, snap)
+                    out, v = _judge_path(fx, path, lines, flts, cleaner)
+                    res.evals += 1
+                    if path.startswith("host"):
+                        res.stat("real_grep_cases")
+                    if out is not None:
+                        if 0 < len(out) < len(lines):
+                            res.nontrivial += 1
+                        res.outcomes.add("glue:%s:%d" % (path, min(len(out), 3)))
+                    if v:
+                        res.violation(v[0], {"part": "content", "path": path, "lines": lines, "filters": flts}, v[1], v[2], v[3])
+    finally:
+        _reset_tables(fx)
+        _rmroot(fx)
+
+
+# filtering switched off (INSIGHTS_FILTERS_ENABLED=False): "no datasources will be filtered even if filters are
+# defined for them" - and a filterable spec without filters is collected
+CL_DISABLED = "disabled:nothing-is-filtered"
+
+
+def check_disabled(case):
+    """case = {"part":"disabled","path":..,"lines":[..],"filters":[..]}; the gate is switched off before anything is
+    registered or looked up (as the environment variable does at import) and switched on again afterwards."""
+    fx = _fx()
+    _mkroot(fx)
+    old = fx.filters.ENABLED
+    try:
+        _reset_tables(fx)
+        fx.filters.ENABLED = False
+        path, lines = case["path"], list(case["lines"])
+        _register(fx, PATH_TRIPLE[path], case["filters"])
+        try:
+            if path in ("archive-load", "apply"):
+                stages = [s for s in _observe(fx, path, lines, None, case["filters"]) if s[0] == "output"]
+            else:
+                _write_input(fx, "in_file" if path == "host-file" else "in_cmd", lines)
+                point = fx.triples[path]["point"]
+                b = _host_broker(fx)
+                fx.dr.run(fx.dr.get_dependency_graph(point), b)
+                if point not in b:
+                    why = sorted(set(repr(e)[:90].replace(fx.root, "<root>") for v in b.exceptions.values() for e in v))
+                    stages = [("content", lines, [], "absent: %s" % why)]
+                else:
+                    stages = _provider_stages(fx, b[point], lines)
+        except Exception as ex:
+            return [(CL_EXC, "no exception", "%s: %s" % (type(ex).__name__, str(ex)[:200]), {"path": "disabled"})]
+        want = [l for l in lines if l]
+        for stage, src, out, note in stages:
+            if [l for l in out if l] != want:
+                return [(CL_DISABLED, {"non_empty_lines": want}, {"stage": stage, "output": out, "note": note},
+                         {"path": "disabled:" + path})]
+        return []
+    finally:
+        fx.filters.ENABLED = old
         _reset_tables(fx)
         _rmroot(fx)
 
@@ -1562,7 +1839,8 @@ def judge_selfcheck(res):
 # driver protocol
 # ---------------------------------------------------------------------------------------------
 def units(tier, seed):
-    us = [{"part": "judge-selfcheck"}, {"part": "nofilter"}, {"part": "collect-history"}]
+    us = [{"part": "judge-selfcheck"}, {"part": "nofilter"}, {"part": "collect-history"}, {"part": "glue"},
+          {"part": "disabled"}]
     if tier == "quick":
         us.append({"part": "history", "name": "ab_1_default", "patterns": ["a", "b"], "budgets": [1, None]})
         us.append({"part": "history", "name": "a_1_2_default", "patterns": ["a"], "budgets": [1, 2, None],
@@ -1600,10 +1878,19 @@ def units(tier, seed):
     for si in range(len(filter_sets(tier))):
         for j in range(k):
             us.append({"part": "content", "set": si, "shard": j, "of": k})
+    kx = 1 if tier == "quick" else 2
+    for xi in range(len(extra_filter_lists(tier))):
+        for j in range(kx):
+            us.append({"part": "content", "xset": xi, "shard": j, "of": kx})
     kh = 1 if tier == "quick" else 6
     for si in range(len(host_filter_sets(tier))):
         for j in range(kh):
             us.append({"part": "host", "set": si, "shard": j, "of": kh})
+    km = 1 if tier == "quick" else 4
+    for pth in sorted(HOST_MULTI):
+        for si in range(len(HOST_MULTI_SETS)):
+            for j in range(km):
+                us.append({"part": "host", "multi": pth, "set": si, "shard": j, "of": km})
     return us
 
 
@@ -1678,6 +1965,20 @@ def run_unit(unit, tier):
                          sample=case if f == "glob_file" and other else None)
                 for c, e, o, ft in vs:
                     res.violation(c, case, e, o, ft)
+    elif part == "glue":
+        explore_glue(res)
+    elif part == "disabled":
+        sets = [[], [["a", 1, "point"]], [["a", None, "impl"], ["b", 1, "parser"]]]
+        for flts in sets:
+            for path in ("archive-load", "apply", "host-file", "host-cmd"):
+                for t in _contents(2):
+                    case = {"part": "disabled", "path": path, "lines": list(t), "filters": flts}
+                    vs = check_disabled(case)
+                    res.case(nontrivial=bool(flts) and any(l and "a" not in l for l in t),
+                             outcome="disabled:%s:%s" % (path, bool(vs)),
+                             sample=case if path == "host-cmd" and len(t) == 2 and flts else None)
+                    for c, e, o, ft in vs:
+                        res.violation(c, case, e, o, ft)
     elif part == "collect-history":
         for point, tgt in COLLECT_CASES:
             for lines in (["a", "c", "xa"], ["c", "-a", ""]):
@@ -1704,6 +2005,8 @@ def replay(case):
         case.pop("_control_collected", None)
     elif part == "collect-history":
         vs = check_collect_history(case)
+    elif part == "disabled":
+        vs = check_disabled(case)
     else:
         raise ValueError(part)
     return [{"clause": c, "case": case, "expected": e, "observed": o, "features": f} for c, e, o, f in vs]
